@@ -5,7 +5,9 @@ package checks
 // followed by `dur rebuild`; the expected answer is the digest of what the real Recover returned.
 
 import (
+	"bytes"
 	"fmt"
+	"runtime"
 	"strings"
 	"sync/atomic"
 
@@ -25,6 +27,184 @@ var c19LeanLeft int64
 type c19Lean struct {
 	pristine *stor.Stor
 	surv     map[int64][]leveldb.VerifEntry
+	// the operations model (Model/RecoverOps.lean): the mutating storage operations made from inside
+	// recoverTable, consecutive writes to one file counted once, and crash images taken between them
+	ops     []string
+	crashes []*c19LeanCrash
+	// the same for openDB (recoverJournal), up to the janitor (whose removal order follows Storage.List)
+	ops3      []string
+	irregular bool // a journal larger than the write buffer was flushed in pieces: not in the model
+}
+
+// c19LeanCrash is the storage after k operations of recoverTable, as a process exit ("kept": everything written
+// stays) or a machine crash ("lost": the unsynced bytes of the files Recover itself wrote are gone) leaves it.
+type c19LeanCrash struct {
+	k    int
+	how  string
+	img  *stor.Stor
+	open string // what Open made of it: ok:<n>:<crc> | err
+	again string // contents after a second Recover: <n>:<crc>
+}
+
+// c19MaxCrashPoints bounds the crash points taken per case (each costs an Open and a Recover, twice).
+const c19MaxCrashPoints = 7
+
+func c19FdTok(fd storage.FileDesc) string {
+	switch fd.Type {
+	case storage.TypeManifest:
+		return fmt.Sprintf("m%d", fd.Num)
+	case storage.TypeJournal:
+		return fmt.Sprintf("j%d", fd.Num)
+	case storage.TypeTable:
+		return fmt.Sprintf("b%d", fd.Num)
+	case storage.TypeTemp:
+		return fmt.Sprintf("t%d", fd.Num)
+	}
+	return fmt.Sprintf("?%d", fd.Num)
+}
+
+// hook returns the Before hook that records recoverTable's operations and takes the crash images; every is
+// the distance between crash points.
+func (l *c19Lean) hook(every int) func(s *stor.Stor, op stor.Op) {
+	type fst struct{ n, synced int }
+	mine := map[storage.FileDesc]*fst{} // files created by this Recover
+	var lastWrite storage.FileDesc
+	lastWasWrite, done := false, false
+	snap := func(s *stor.Stor) {
+		k := len(l.ops) + len(l.ops3)
+		if k%every != 0 || len(l.crashes) >= 2*c19MaxCrashPoints {
+			return
+		}
+		kept := s.ImageLocked(nil)
+		lost := kept.Clone()
+		for fd, f := range mine {
+			if f.synced < f.n {
+				if b, ok := lost.FileBytes(fd); ok && len(b) >= f.synced {
+					lost.PutFile(fd, b[:f.synced])
+				}
+			}
+		}
+		l.crashes = append(l.crashes, &c19LeanCrash{k: k, how: "kept", img: kept}, &c19LeanCrash{k: k, how: "lost", img: lost})
+	}
+	final := func(s *stor.Stor) { // the last crash point is always taken
+		k := len(l.ops) + len(l.ops3)
+		if n := len(l.crashes); n > 0 && l.crashes[n-1].k == k {
+			return
+		}
+		l.crashes = append(l.crashes, &c19LeanCrash{k: k, how: "kept", img: s.ImageLocked(nil)})
+	}
+	phase3, tablesSinceCommit := false, 0
+	return func(s *stor.Stor, op stor.Op) {
+		if done || !op.Kind.Mutating() {
+			return
+		}
+		in := inRecoverTable()
+		if !in && !phase3 {
+			if len(l.ops) == 0 || !inOpenDB() {
+				return
+			}
+			phase3 = true
+		}
+		if phase3 && (!inOpenDB() || (op.Kind == stor.OpRemove && op.Fd.Type != storage.TypeJournal)) {
+			final(s) // the janitor starts (or openDB has returned)
+			done = true
+			return
+		}
+		if op.Kind == stor.OpWrite && lastWasWrite && lastWrite == op.Fd {
+			if f := mine[op.Fd]; f != nil {
+				f.n += op.N
+			}
+			return
+		}
+		if !l.irregular {
+			snap(s)
+		}
+		lastWasWrite = false
+		tok := ""
+		switch op.Kind {
+		case stor.OpCreate:
+			mine[op.Fd] = &fst{}
+			tok = "c:" + c19FdTok(op.Fd)
+			if phase3 && op.Fd.Type == storage.TypeTable {
+				if tablesSinceCommit++; tablesSinceCommit > 1 {
+					l.irregular = true
+				}
+			}
+		case stor.OpWrite:
+			if f := mine[op.Fd]; f != nil {
+				f.n += op.N
+			}
+			lastWasWrite, lastWrite = true, op.Fd
+			tok = "w:" + c19FdTok(op.Fd)
+			if op.Fd.Type == storage.TypeManifest {
+				tablesSinceCommit = 0
+			}
+		case stor.OpSync:
+			if f := mine[op.Fd]; f != nil {
+				f.synced = f.n
+			}
+			tok = "s:" + c19FdTok(op.Fd)
+		case stor.OpRename:
+			to := s.RenameToLocked()
+			if f := mine[op.Fd]; f != nil {
+				mine[to] = f
+				delete(mine, op.Fd)
+			}
+			tok = fmt.Sprintf("r:%d>%d", op.Fd.Num, to.Num)
+		case stor.OpRemove:
+			delete(mine, op.Fd)
+			tok = "d:" + c19FdTok(op.Fd)
+		case stor.OpSetMeta:
+			tok = fmt.Sprintf("meta:%d", op.Fd.Num)
+		}
+		if phase3 {
+			l.ops3 = append(l.ops3, tok)
+		} else {
+			l.ops = append(l.ops, tok)
+		}
+	}
+}
+
+// inOpenDB: the calling goroutine is inside leveldb's openDB.
+func inOpenDB() bool {
+	buf := make([]byte, 16<<10)
+	buf = buf[:runtime.Stack(buf, false)]
+	return bytes.Contains(buf, []byte("leveldb.openDB("))
+}
+
+// evalCrashes runs, for every crash image, what a user does next: Open (on a copy), and Recover.
+func (l *c19Lean) evalCrashes(o *opt.Options) {
+	dig := func(db *leveldb.DB) (string, bool) {
+		got, err := crDumpDB(db)
+		if err != nil {
+			return "scan-error", false
+		}
+		return strings.Replace(crDigest(got), " ", ":", 1), true
+	}
+	for _, cr := range l.crashes {
+		var db *leveldb.DB
+		err, hung := crCall(crWdTimeout, func() (err error) { db, err = leveldb.Open(cr.img.Clone(), o); return })
+		switch {
+		case hung:
+			cr.open = "hang"
+		case err != nil:
+			cr.open = "err"
+		default:
+			dg, _ := dig(db)
+			cr.open = "ok:" + dg
+			crCall(crWdTimeout, db.Close)
+		}
+		err, hung = crCall(crWdTimeout, func() (err error) { db, err = leveldb.Recover(cr.img, o); return })
+		switch {
+		case hung:
+			cr.again = "hang"
+		case err != nil:
+			cr.again = "err"
+		default:
+			cr.again, _ = dig(db)
+			crCall(crWdTimeout, db.Close)
+		}
+	}
 }
 
 func c19WantLean() bool { return atomic.AddInt64(&c19LeanLeft, -1) >= 0 }
@@ -40,10 +220,17 @@ func c19EmitRebuild(c *Ctx, l *c19Lean, o *opt.Options, cmpID string, outcome st
 			return false
 		}
 		switch fd.Type {
+		case storage.TypeManifest:
+			if l.ops != nil {
+				lines = append(lines, fmt.Sprintf("dur file m %d %s", fd.Num, gen.Hex(b)))
+			}
 		case storage.TypeJournal:
 			lines = append(lines, fmt.Sprintf("dur file j %d %s", fd.Num, gen.Hex(b)))
 		case storage.TypeTable:
 			ents, ok := l.surv[fd.Num]
+			if ok && l.ops != nil {
+				lines = append(lines, fmt.Sprintf("dur dmg %d", fd.Num))
+			}
 			if !ok {
 				var err error
 				ents, err = crReadTable(b, fd, o, true)
@@ -71,6 +258,23 @@ func c19EmitRebuild(c *Ctx, l *c19Lean, o *opt.Options, cmpID string, outcome st
 		c.Lean(ln, "ok")
 	}
 	c.Lean("dur rebuild", outcome)
+	if l.ops != nil {
+		// the operations model: the same image, CURRENT included; the operation sequence of recoverTable; the
+		// crash images
+		if m, ok := l.pristine.Meta(); ok {
+			c.Lean(fmt.Sprintf("dur current %d", m.Num), "ok")
+		}
+		c.Lean("dur rops", strings.Join(append([]string{"ok"}, l.ops...), " "))
+		if !l.irregular {
+			c.Lean("dur rops3", strings.Join(append([]string{"ok"}, l.ops3...), " "))
+		}
+		for _, cr := range l.crashes {
+			if l.irregular && cr.k > len(l.ops) {
+				continue
+			}
+			c.Lean(fmt.Sprintf("dur rcrash %d %s", cr.k, cr.how), fmt.Sprintf("ok O:%s A:%s", cr.open, cr.again))
+		}
+	}
 	crLeanMu.Unlock()
 	return true
 }
